@@ -296,7 +296,15 @@ def fc0_jobs(tier, seed, signs=("affine", 1)):
             adj = tables.entries(n, conn)[cls]["adj"]
             base = [r2.randrange(6) for _ in range(n)]
             window = [r2.randrange(n)] if (tier == "thorough" and n <= 5) else []
-            B = spec.random_invertible(n, r2) if r2.random() < 0.5 else None
+            u = r2.random()
+            if u < 0.34:
+                B = None
+            elif u < 0.67:
+                B = spec.random_invertible(n, r2)
+            else:
+                perm = list(range(n))            # generator ORDER matters to the sign synthesis: a random permutation
+                r2.shuffle(perm)
+                B = [[1 if perm[h] == g else 0 for h in range(n)] for g in range(n)]
             jobs.append(dict(family="Fc", n=n, conn=conn, cls=cls, adj=adj, base_layer=base, window=window, B=B, resign=False,
                              signs=signs, seed=seed * 13 + cls))
     return jobs
